@@ -77,6 +77,22 @@ func coqEps(es []ep) string {
 
 // ---- the specification the monitor uses (property text / network spec; independent of the Coq model)
 func specDuplex(c config) bool { return c.Kind == "ntn" && c.FullDuplex && c.PeerDuplex }
+
+// roleEnabledW: the same judged against the WIRE: the negotiated mode is duplex only if
+// the implementation itself advertised InitiatorAndResponder for the accepted version
+// (own, decoded from its handshake message) and so did the peer.
+func roleEnabledW(c config, own bool, responder bool) bool {
+	duplex := c.Kind == "ntn" && own && c.PeerDuplex
+	if responder {
+		return duplex || c.Server
+	}
+	return duplex || !c.Server
+}
+
+func (c config) cfgCoq() string {
+	k := map[string]string{"ntn": "NtN", "ntc": "NtC", "dmq": "DMQ"}[c.Kind]
+	return fmt.Sprintf("(mkcfg %s %s %s %s %s %s)", vh.Bool(c.Server), k, vh.Bool(c.FullDuplex), vh.Bool(c.KeepAlive), vh.Bool(c.PeerSharing), vh.Bool(c.Delay))
+}
 func roleEnabled(c config, responder bool) bool {
 	if responder {
 		return specDuplex(c) || c.Server
@@ -150,7 +166,9 @@ type outcome struct {
 	mode      int64
 	started   []ep
 	introspOK bool
-	fenceRead bool // the muxer went on reading after the probe (= probe accepted)
+	// what the implementation put on the wire as its diffusion mode for the accepted version
+	own, ownKnown bool
+	fenceRead     bool // the muxer went on reading after the probe (= probe accepted)
 	// only write errors (io.ErrClosedPipe) were seen: cannot tell whether the muxer
 	// had rejected the probe (its own error may lose the race for the error channel)
 	ambiguous bool
@@ -216,6 +234,12 @@ func dialLife(c config, p *probe, inspect bool, act func(*ouroboros.Connection, 
 				cb.Close()
 				return o
 			}
+			if prop, err := muxpeer.ParseProposal(s.Payload); err == nil {
+				if data, offered := prop[c.Version]; offered {
+					o.own, _ = muxpeer.AdvertisedDuplex(data, c.Kind == "ntn")
+					o.ownKnown = true
+				}
+			}
 		case <-time.After(longWait):
 			o.hung = "no handshake proposal from the client"
 			cb.Close()
@@ -260,10 +284,26 @@ func dialLife(c config, p *probe, inspect bool, act func(*ouroboros.Connection, 
 		}
 	}
 	if c.Server {
-		// let the server's accept message arrive before hanging up
-		select {
-		case <-segCh:
-		case <-time.After(longWait):
+		// let the server's accept message arrive before going on (other protocols of a
+		// duplex server may get their first segment out before it)
+		dl := time.After(longWait)
+	waitAccept:
+		for {
+			select {
+			case s, ok := <-segCh:
+				if !ok {
+					break waitAccept
+				}
+				if s.Pid() == 0 && s.IsResponse() {
+					if v, data, err := muxpeer.ParseAccept(s.Payload); err == nil && v == c.Version {
+						o.own, _ = muxpeer.AdvertisedDuplex(data, c.Kind == "ntn")
+						o.ownKnown = true
+					}
+					break waitAccept
+				}
+			case <-dl:
+				break waitAccept
+			}
 		}
 	}
 	if act != nil && o.hung == "" {
@@ -632,6 +672,10 @@ func runSetup(c *vh.Ctx, cf *vh.CaseFile, cfg config) {
 	if !o.closedOK {
 		c.Res.Violate("monitor", "spurious-error-after-setup", fmt.Sprintf("connection reported %v without any traffic", o.firstErr), rp)
 	}
+	if !o.ownKnown {
+		c.Res.Violate("monitor", fmt.Sprintf("own-version-data-not-on-the-wire:v%d", cfg.Version), "the implementation's handshake message carries no version data for the accepted version", rp)
+		return
+	}
 	if !o.introspOK {
 		c.Res.Notes = append(c.Res.Notes, "introspection of unexported muxer/protocol fields unavailable: setup cases skipped")
 		return
@@ -640,7 +684,7 @@ func runSetup(c *vh.Ctx, cf *vh.CaseFile, cfg config) {
 	isReg := map[ep]bool{}
 	for _, e := range o.regs {
 		isReg[e] = true
-		if e.Pid != 0 && !roleEnabled(cfg, e.Resp) {
+		if e.Pid != 0 && !roleEnabledW(cfg, o.own, e.Resp) {
 			c.Res.Violate("monitor", fmt.Sprintf("registered-in-disabled-role:%d", e.Pid), fmt.Sprintf("receiver %v registered although that role is not enabled", e), rp)
 		}
 	}
@@ -653,7 +697,7 @@ func runSetup(c *vh.Ctx, cf *vh.CaseFile, cfg config) {
 	}
 	for pid := uint16(1); pid < 32; pid++ {
 		for _, resp := range []bool{false, true} {
-			want := !cfg.Delay && specProtocol(cfg, pid) && roleEnabled(cfg, resp) && (pid != 8 || resp || cfg.KeepAlive)
+			want := !cfg.Delay && specProtocol(cfg, pid) && roleEnabledW(cfg, o.own, resp) && (pid != 8 || resp || cfg.KeepAlive)
 			if want != isStarted[ep{pid, resp}] {
 				c.Res.Violate("monitor", fmt.Sprintf("started-differs-from-spec:%d", pid), fmt.Sprintf("protocol %d responder=%v: started=%v, enabled by negotiation=%v", pid, resp, !want, want), rp)
 			}
@@ -666,9 +710,10 @@ func runSetup(c *vh.Ctx, cf *vh.CaseFile, cfg config) {
 		wantMode = muxer.DiffusionModeResponder
 	}
 	_ = wantMode
-	if (muxer.DiffusionMode(o.mode) == muxer.DiffusionModeInitiator && roleEnabled(cfg, true)) || (muxer.DiffusionMode(o.mode) == muxer.DiffusionModeResponder && roleEnabled(cfg, false)) {
+	if (muxer.DiffusionMode(o.mode) == muxer.DiffusionModeInitiator && roleEnabledW(cfg, o.own, true)) || (muxer.DiffusionMode(o.mode) == muxer.DiffusionModeResponder && roleEnabledW(cfg, o.own, false)) {
 		c.Res.Violate("monitor", "mode-stricter-than-roles", fmt.Sprintf("muxer mode %d forbids an enabled role", o.mode), rp)
 	}
+	cf.Add(fmt.Sprintf("CAdv %s %d %s", cfg.cfgCoq(), cfg.Version, vh.Bool(o.own)), rp)
 	c.Res.Sample(map[string]any{"cfg": cfg, "registered": len(o.regs), "started": len(o.started), "mode": o.mode})
 	cf.Add(fmt.Sprintf("CSetup %s %s %d %s", cfg.coq(), coqEps(o.regs), o.mode, coqEps(o.started)), rp)
 	c.Res.TracesValidated++
@@ -693,15 +738,17 @@ func runProbe(c *vh.Ctx, cf *vh.CaseFile, cfg config, p probe) {
 	accepted := o.fenceRead
 	// monitor (property text)
 	switch {
-	case !isResp && !roleEnabled(cfg, true) && accepted:
+	case !isResp && !roleEnabledW(cfg, o.own, true) && accepted && cfg.Kind == "ntn" && cfg.PeerDuplex && cfg.FullDuplex:
+		c.Res.Violate("monitor", fmt.Sprintf("responder-served-although-we-advertised-initiator-only:v%d", cfg.Version), fmt.Sprintf("this end put InitiatorOnly on the wire for version %d, yet a peer request for protocol %d was accepted", cfg.Version, pid), rp)
+	case !isResp && !roleEnabledW(cfg, o.own, true) && accepted:
 		c.Res.Violate("monitor", fmt.Sprintf("request-accepted-on-initiator-only:%d", pid), "a request segment did not fail an initiator-only connection", rp)
-	case !isResp && !roleEnabled(cfg, true) && o.kaCalls > 0:
+	case !isResp && !roleEnabledW(cfg, o.own, true) && o.kaCalls > 0:
 		c.Res.Violate("monitor", "handler-called-on-initiator-only", "keep-alive server handler ran on an initiator-only connection", rp)
-	case isResp && !roleEnabled(cfg, false) && accepted:
+	case isResp && !roleEnabledW(cfg, o.own, false) && accepted:
 		c.Res.Violate("monitor", fmt.Sprintf("response-accepted-on-responder-only:%d", pid), "a response segment did not fail a responder-only connection", rp)
-	case !isResp && roleEnabled(cfg, true) && specProtocol(cfg, pid) && !accepted:
+	case !isResp && roleEnabledW(cfg, o.own, true) && specProtocol(cfg, pid) && !accepted:
 		c.Res.Violate("monitor", fmt.Sprintf("enabled-responder-unreachable:%d", pid), fmt.Sprintf("a request for an enabled protocol failed the connection: %v", o.firstErr), rp)
-	case !isResp && roleEnabled(cfg, true) && !cfg.Delay && pid == 8 && specProtocol(cfg, 8) && p.WaitHandler && o.kaCalls == 0:
+	case !isResp && roleEnabledW(cfg, o.own, true) && !cfg.Delay && pid == 8 && specProtocol(cfg, 8) && p.WaitHandler && o.kaCalls == 0:
 		c.Res.Violate("monitor", "enabled-responder-no-handler-call:8", "keep-alive request on an enabled responder never reached the handler", rp)
 	case !specProtocol(cfg, pid) && pid != 0 && accepted:
 		c.Res.Violate("monitor", fmt.Sprintf("segment-for-disabled-protocol-accepted:%d", pid), "a segment for a protocol the negotiated version does not carry was accepted", rp)
